@@ -13,8 +13,8 @@
    os.LookupEnv is a finite association list (first binding wins; the
    harness never binds a name twice).
 
-   Outcome codes added here.  Panic: 4 reflect.StructOf duplicate field,
-   5 "empty dialsenv tag", 6 Type.Elem of a non-pointer leaf type. *)
+   Outcome codes added here.  Err: 5 "empty dialsenv tag".  Panic: 4
+   reflect.StructOf duplicate field, 6 Type.Elem of a non-pointer leaf type. *)
 From Coq Require Import String.
 From Coq Require Import List NArith ZArith Bool.
 From Dials Require Import Base.Outcome Base.Runes Reflect.Ty Stack.Overlay Text.CaseConv
@@ -50,10 +50,12 @@ Definition env_final_tags (l : leaf) : outcome (list (str * str)) :=
             end
      end.
 
-(* env.go:52-62 *)
+(* env.go:52-62; an empty dialsenv tag (the tags along the path decode to no
+   word at all, e.g. `dials:"_"`) is a returned error since the fix for it -
+   the pinned code panicked here *)
 Definition env_var (prefix : str) (tags : list (str * str)) : outcome str :=
   match tag_get dialsenv_tag tags with
-  | [] => Panic 5
+  | [] => Err 5
   | v => Ok match prefix with [] => v | _ => prefix ++ underscore :: v end
   end.
 
